@@ -1007,7 +1007,7 @@ class Frame:
         if not has_sym(l) and not has_sym(r):
             try:
                 if inplace and isinstance(l, list) and T is ast.Add:
-                    if getattr(l, 'frozen', False):
+                    if getattr(l, 'frozen', False) and len(r):
                         s.eng.event('arg_mutation', what='list +=')
                     l += r
                     return l
@@ -1022,9 +1022,10 @@ class Frame:
                 if isinstance(l, SList):
                     slist_extend(s.it, s, l, r)
                 else:
-                    if getattr(l, 'frozen', False):
+                    ext = list(s.iterate(r))
+                    if ext and getattr(l, 'frozen', False):
                         s.eng.event('arg_mutation', what='list +=')
-                    l.extend(s.iterate(r))
+                    l.extend(ext)
                 return l
             return list(s.iterate(l)) + list(s.iterate(r))
         from .models import sym_binop
